@@ -55,6 +55,7 @@ type c17Scenario struct {
 	Via         string            `json:"via"` // Eval | Subscribe
 	TornAt      int               `json:"torn_at,omitempty"`
 	Neighbour   bool              `json:"concurrent_json_neighbour,omitempty"`
+	Composed    bool              `json:"evaluated_through_a_FlatMap_composition,omitempty"`
 
 	h      *Hist
 	probes map[string]int
@@ -217,6 +218,7 @@ func genC17(t *simrt.Tape, tier string) Scenario {
 	}
 	sc.Via = []string{"Eval", "Subscribe"}[t.Choose(2)]
 	sc.Neighbour = t.Bool(1, 4)
+	sc.Composed = t.Bool(1, 4)
 	return sc
 }
 
@@ -402,6 +404,23 @@ func (sc *c17Scenario) Run(s *simrt.Sim) {
 			s.WaitUntilTimeout(neighbour.Done, time.Minute)
 		}
 	}()
+	if sc.Composed {
+		// the API's MonadIO is used as the source of a composition: still nothing is sent until the composition
+		// is evaluated, and every evaluation of the composition issues the request once
+		src := io_
+		flat := 0
+		h.Do("main", "compose", nil, func() (interface{}, error) {
+			io_ = src.FlatMap(func(r *network.APIResponse[c17Resp]) *fpgo.MonadIODef[*network.APIResponse[c17Resp]] {
+				flat++
+				return fpgo.MonadIOJustGenerics(r)
+			})
+			return nil, nil
+		})
+		if len(tr.recs) != 0 || flat != 0 {
+			add("lazy", "request-sent-at-composition", fmt.Sprintf("%d requests were sent (continuation ran %d times) when the API's MonadIO was composed with FlatMap, before any evaluation", len(tr.recs), flat))
+		}
+		sc.probes["api-monad-composed"]++
+	}
 	var hd *fpgo.HandlerDef
 	if sc.Via == "Subscribe" {
 		hd = fpgo.Handler.New()
